@@ -56,6 +56,8 @@ var regOps = []regOp{
 	{"remove", "KnownArgumentNames", ""}, {"remove", "ScalarLeafs", ""}, {"remove", "Custom", ""},
 	{"replace", "KnownArgumentNames", "KnownArgumentNamesWithoutSuggestions"}, {"replace", "KnownArgumentNames", "KnownArgumentNames"},
 	{"replace", "Custom", "Custom"}, {"add", "Custom", "Custom"}, {"add", "ScalarLeafs", "ScalarLeafs"}, {"replace", "ScalarLeafs", "ScalarLeafs"},
+	// a name registered twice (AddRule does not de-duplicate), so that a later ReplaceRule / RemoveRule has two entries to act on
+	{"add", "KnownArgumentNames", "KnownArgumentNames"}, {"replace", "Custom", "ScalarLeafs"},
 }
 
 func regInitial() []regEntry {
@@ -204,7 +206,7 @@ func regCase(c *explore.Ctx, s *explore.SubStats, path []int) (state []regEntry)
 
 func registrySub(c *explore.Ctx) {
 	depth := c.Pick(4, 6)
-	s := c.Sub("registry", fmt.Sprintf("explicit-state search over the global rule registry: every sequence of ≤ %d operations from %d (RemoveRule / ReplaceRule / AddRule on two registered rules and one unregistered rule, with the standard function, a without-suggestions variant or a custom rule), states deduplicated by registry content, each reached by replaying its shortest path on a reset registry; 3 documents validated in every state", depth, len(regOps)),
+	s := c.Sub("registry", fmt.Sprintf("explicit-state search over the global rule registry: every sequence of ≤ %d operations from %d (RemoveRule / ReplaceRule / AddRule on two registered rules and one unregistered rule, with the standard function, a without-suggestions variant, another rule's function or a custom rule; names can be registered twice), states deduplicated by registry content, each reached by replaying its shortest path on a reset registry; 3 documents validated in every state", depth, len(regOps)),
 		"Validate with the default rule set = Validate with the explicit list the documented semantics of the operations give; every error names its rule", "states whose documents report errors")
 	if s == nil {
 		return
